@@ -42,6 +42,9 @@ static const char *const T_C01[] = {
 	"hold; C0 | s0 | b0",
 	"hold; C0 | s0 s0 | b0 a0",
 	"hold; N0 | s0 | a0 b0",
+	// a serial queue on top of a private concurrent queue: contended sync on the serial queue while the concurrent target is busy
+	"slow; C0 S1>0 | a1 s1 a0 | b0",
+	"slow; C0 S1>0 | a1 s1 s1 | b0 a0",
 	0
 };
 QP_HARNESS(h_q01, "q01", "C01", T_C01, 0);
@@ -78,6 +81,10 @@ static const char *const T_C02[] = {
 	"S0 S1>0 | a0 a0 w1 s0",
 	"slow; S0 S1>0 | a0 w1 s0 | a0",
 	"slow; S0 S1>0 | a0 w1 a0 s0",
+	// an item that suspends and resumes its own queue from inside (the count returns to zero while the item still owns the queue)
+	"S0 | r0 a0 | s0",
+	"slow; S0 | r0 a0 | s0",
+	"S0 | r0 | s0 | a0",
 	0
 };
 QP_HARNESS(h_q02, "q02", "C02", T_C02, 0);
